@@ -8,8 +8,15 @@ import time
 
 VERIF = os.path.dirname(os.path.dirname(os.path.abspath(__file__)))
 REPO = os.environ.get("VERIF_REPO", "/repo")
-EVIDENCE = os.path.join(VERIF, "evidence")
-REPLAYS = os.path.join(VERIF, "replays")
+if os.path.realpath(REPO) == os.path.realpath("/repo"):
+    EVIDENCE = os.path.join(VERIF, "evidence")
+    REPLAYS = os.path.join(VERIF, "replays")
+else:
+    # a run against a scratch copy (seeded fault, benign change) must never write /verif/evidence:
+    # the committed evidence describes /repo itself
+    _OUT = os.environ.get("VERIF_OUT") or os.path.join(os.path.realpath(REPO), ".verif-out")
+    EVIDENCE = os.path.join(_OUT, "evidence")
+    REPLAYS = os.path.join(_OUT, "replays")
 FINDINGS = os.path.join(VERIF, "known_findings.json")
 
 
@@ -62,6 +69,7 @@ class Check:
         self.assumptions = []
         self.extra = {}
         self.rule = ""
+        self.tlc_actions = {}      # module -> action -> states generated (summed over the -coverage runs)
         self.controls = 0          # negative controls that were (correctly) rejected
         with open(FINDINGS) as fh:
             self.findings = json.load(fh)
@@ -72,6 +80,9 @@ class Check:
     def add_tlc(self, res, label=None):
         self.states += res.distinct
         self.transitions += res.generated
+        for (mod, act), n in getattr(res, "coverage", {}).items():      # -coverage 1 runs: per-action counts
+            d = self.tlc_actions.setdefault(mod, {})
+            d[act] = d.get(act, 0) + n
         if label:
             self.extra.setdefault("tlc_runs", []).append(dict(label=label, **res.summary()))
 
@@ -109,6 +120,13 @@ class Check:
                    negative_controls_rejected=self.controls,
                    exhaustive=bool(exhaustive))
         cov.update(self.extra)
+        if self.tlc_actions:
+            # anti-vacuity: an action of a specification that no TLC run of this check ever took
+            cov["tlc_action_counts"] = self.tlc_actions
+            cov["tlc_actions_never_taken"] = sorted("%s!%s" % (m, a) for m, d in self.tlc_actions.items()
+                                                    for a, n in d.items() if n == 0)
+            for x in cov["tlc_actions_never_taken"]:
+                print("COVERAGE: action %s was never taken in any TLC run of this check" % x)
         ev = dict(property_id=self.pid, tier=self.tier, seed=self.seed, level=level,
                   coverage=cov, assumptions=self.assumptions, wall_s=round(wall, 2),
                   violations=len(self.violations))
